@@ -95,6 +95,7 @@ fn explore(args: &Args) {
     };
     for cs in list {
         line(&format!("BEGIN {cs:#x}"));
+        *engine::STALL_CONTEXT.lock().unwrap() = Some((prop.to_string(), format!("{cs:#x}"), "a build of this case".to_string()));
         let case = match plan.custom_gen {
             Some(g) => g(cs, &plan.profile),
             None => engine::gen_case(cs, &plan.profile),
